@@ -39,6 +39,14 @@ What this front end adds to the shared translator:
   * the dictionary self.max_level_dict keyed by the tuple (d, i): `tuple((d, i)) in self.max_level_dict` / `self.max_level_dict[tuple((d, i))]`
     are rewritten to the list operations on an association list  self_max_level_dict : list of [d, i, value]  (py_c06_dict_has /
     py_c06_dict_get in coq/Base/PyC06.v: first entry whose first two components are d and i).
+SECOND TARGET (phase 4): sparseSpACE/RefinementContainer.py -> coq/Gen/RefContainerGen.v:  RefinementContainer.size and
+RefinementContainer.get_next_object_for_refinement (the search of the margin selection loop), proved equal to Model/RefTree.v
+cont_get_next in Proofs/GenRefContEq.v.  Rewritings of this target (fail-closed, by exact shape): the container's objects are viewed
+as the list of their `benefit` values (self.refinementObjects[i].benefit -> self.refinementObjects[i]); `if c: x = A else: x = B` ->
+`x = A if c else B`; the attribute write self.searchPosition = e becomes part of the result (searchPosition_out, initialised with the
+attribute, appended to every returned value); `return found, i, obj` -> `(found, (i, searchPosition_out))` - the object itself is
+dropped and the None in the index position of the not-found result is written -1; the local name `end` (a Gallina keyword) is
+renamed end_v.
 Usage: py2gallina_c06.py [--repo DIR] [--out FILE] [--stdout]      (VERIF_REPO is respected like in the shared translator)"""
 import ast as _ast
 import os
@@ -52,20 +60,105 @@ SRC = 'sparseSpACE/spatiallyAdaptiveSingleDimension2.py'
 CLASS = 'SpatiallyAdaptiveSingleDimensions2'
 LI = ('list', P.INT)
 LLI = ('list', LI)
-ATTRS = {'lmax': LI, 'lmin': LI, 'max_level_dict': LLI}
+ATTRS = {'lmax': LI, 'lmin': LI, 'max_level_dict': LLI, 'version': P.INT, 'dim': P.INT}
+SUB_FUEL = '(S (Z.to_nat (2 * Z.max subtraction_value 0 + 4)))'      # = S (sub_fuel) of Model/DimWise.v: one more unit to see the loop flag
 VIEWS = {
     'get_max_level': dict(containers=['refine_container'], objects=['refine_obj'], dict_attr='max_level_dict'),
     'update_coarsening_values': dict(containers=['refinement_container_d'], objects=[], collect='coarsening_level'),
+    # versions 6, 7, 8 (and 2): the branches of the other versions are NOT translated - entering them makes the generated function
+    # raise (return None), nothing is assumed about them
+    'get_subtraction_value': dict(containers=['refineContainer'], objects=['refineObj'], dict_attr='max_level_dict', dict_writes=True,
+                                  counts=True,
+                                  unsupported_if=['self.version == 5', 'self.version == 4 or self.version == 5',
+                                                  '(self.version == 4 or self.version == 5) and max_level > 2',
+                                                  'self.version == 3 and max_level > 2']),
 }
 P.NUM_TARGETS[TARGET] = dict(
     file=SRC, out='DimWiseGen.v', prop='C06',
     classes=[dict(name=CLASS, mode='param',
-                  methods=['modify_according_to_levelvec', 'get_max_level', 'update_coarsening_values'], attrs=ATTRS)],
+                  methods=['modify_according_to_levelvec', 'get_max_level', 'update_coarsening_values', 'get_subtraction_value'],
+                  attrs=ATTRS)],
     fuel={},
-    while_fuel={CLASS + '.get_max_level': ['(S (length refine_container_objects))', '(S (length refine_container_objects))']},
+    while_fuel={CLASS + '.get_max_level': ['(S (length refine_container_objects))', '(S (length refine_container_objects))'],
+                CLASS + '.get_subtraction_value': [SUB_FUEL, SUB_FUEL, SUB_FUEL]},
     param_types={('modify_according_to_levelvec', 'subtraction_value'): 'int', ('modify_according_to_levelvec', 'd'): 'int',
                  ('modify_according_to_levelvec', 'max_level'): 'int', ('modify_according_to_levelvec', 'levelvec'): 'List[int]',
-                 ('update_coarsening_values', 'd'): 'int'})
+                 ('update_coarsening_values', 'd'): 'int',
+                 ('get_subtraction_value', 'max_coarsenings'): 'List[int]', ('get_subtraction_value', 'levelvec'): 'List[int]'})
+
+
+TARGET2 = 'refcont'
+SRC2 = 'sparseSpACE/RefinementContainer.py'
+CLASS2 = 'RefinementContainer'
+P.NUM_TARGETS[TARGET2] = dict(
+    file=SRC2, out='RefContainerGen.v', prop='C06',
+    classes=[dict(name=CLASS2, mode='param', methods=['size', 'get_next_object_for_refinement'],
+                  attrs={'startNewObjects': P.INT, 'searchPosition': P.INT, 'refinementObjects': ('list', P.FLOAT)})],
+    fuel={})
+
+
+def desugar_get_next(fn):
+    """the rewriting of RefinementContainer.get_next_object_for_refinement (see the module docstring); anything else is rejected"""
+    def rej(node, what):
+        raise P.Reject(node, 'get_next_object_for_refinement: %s' % what)
+    if any(isinstance(n, _ast.Name) and n.id in ('end_v', 'searchPosition_out') for n in _ast.walk(fn)):
+        rej(fn, 'name clash with a generated name')
+    out = []
+    for st in fn.body:
+        if isinstance(st, _ast.If) and len(st.body) == 1 and len(st.orelse) == 1 and isinstance(st.body[0], _ast.Assign) \
+                and isinstance(st.orelse[0], _ast.Assign) and len(st.body[0].targets) == 1 and len(st.orelse[0].targets) == 1 \
+                and isinstance(st.body[0].targets[0], _ast.Name) and isinstance(st.orelse[0].targets[0], _ast.Name) \
+                and st.body[0].targets[0].id == st.orelse[0].targets[0].id:
+            new = _ast.Assign(targets=[st.body[0].targets[0]],
+                              value=_ast.IfExp(test=st.test, body=st.body[0].value, orelse=st.orelse[0].value))
+            out.append(_ast.copy_location(new, st))
+        else:
+            out.append(st)
+    doc = [out[0]] if (out and isinstance(out[0], _ast.Expr) and isinstance(out[0].value, _ast.Constant)) else []
+    fn.body = doc + [_ast.copy_location(_ast.parse('searchPosition_out = self.searchPosition').body[0], fn)] + out[len(doc):]
+    nwrites = [0]
+
+    class Rw(_ast.NodeTransformer):
+        def visit_Name(self, n):
+            if n.id == 'end':
+                n.id = 'end_v'
+            return n
+
+        def visit_Assign(self, a):
+            if len(a.targets) == 1 and isinstance(a.targets[0], _ast.Attribute):
+                if _ast.unparse(a.targets[0]) != 'self.searchPosition':
+                    rej(a, 'attribute write %s' % _ast.unparse(a.targets[0]))
+                a.targets = [_ast.copy_location(_ast.Name(id='searchPosition_out', ctx=_ast.Store()), a.targets[0])]
+                nwrites[0] += 1
+            return self.generic_visit(a)
+
+        def visit_Return(self, r):
+            t = r.value
+            if not (isinstance(t, _ast.Tuple) and len(t.elts) == 3):
+                rej(r, 'return of anything but (found, index, object)')
+            idx = t.elts[1]
+            if isinstance(idx, _ast.Constant) and idx.value is None:
+                idx = _ast.parse('-1', mode='eval').body
+            obj = t.elts[2]
+            if not ((isinstance(obj, _ast.Constant) and obj.value is None) or _ast.unparse(obj).startswith('self.refinementObjects[')):
+                rej(r, 'third component of the result is not the object found / None')
+            new = _ast.parse('(0, (0, searchPosition_out))', mode='eval').body
+            new.elts[0] = self.visit(t.elts[0])
+            new.elts[1].elts[0] = self.visit(idx)
+            r.value = new
+            return r
+
+        def visit_Attribute(self, a):
+            a = self.generic_visit(a)
+            if a.attr == 'benefit' and isinstance(a.value, _ast.Subscript) and _ast.unparse(a.value.value) == 'self.refinementObjects':
+                return a.value
+            return a
+    fn = Rw().visit(fn)
+    for n in _ast.walk(fn):
+        if isinstance(n, _ast.Attribute) and isinstance(n.value, _ast.Subscript) and _ast.unparse(n.value.value) == 'self.refinementObjects':
+            rej(n, 'attribute %s of a container object (only benefit)' % n.attr)
+    _ast.fix_missing_locations(fn)
+    return fn
 
 
 class Desugar(_ast.NodeTransformer):
@@ -77,6 +170,8 @@ class Desugar(_ast.NodeTransformer):
         self.containers = set(cfg['containers'])
         self.objects = set(cfg['objects'])       # object views: parameters, later also element variables
         self.collect = cfg.get('collect')
+        self.extra_outs = []                      # names appended to every returned value
+        self.ncount = 0
         self.written = set()                      # element variables whose collect attribute was assigned
         self.cont_of = {}                         # element variable -> container
         self.loop_var = None
@@ -107,11 +202,22 @@ class Desugar(_ast.NodeTransformer):
             cond.body = cond.body + [copy.deepcopy(ret)]
             cond.orelse = cond.orelse + [copy.deepcopy(ret)]
             fn.body = fn.body[:-1]
-        fn.body = self.stmts(fn.body, top=True)
         if self.collect:
+            self.extra_outs += ['%s_%s_out' % (c, self.collect) for c in sorted(self.containers)]
+        if self.cfg.get('dict_writes'):
+            self.extra_outs.append('%s_writes' % self.cfg['dict_attr'])
+        for gen in self.extra_outs:
+            if gen in names:
+                self.rej(fn, 'name clash with the generated name %s' % gen)
+        self.seen_unsupported = set()
+        fn.body = self.stmts(fn.body, top=True)
+        missing = set(self.cfg.get('unsupported_if', [])) - self.seen_unsupported
+        if missing:
+            self.rej(fn, 'the branches declared outside the model are not in the source any more: %s' % sorted(missing))
+        if self.extra_outs:
             init = []
-            for c in sorted(self.containers):
-                init.append(_ast.copy_location(_ast.parse('%s_%s_out = []' % (c, self.collect)).body[0], fn.body[0]))
+            for gen in self.extra_outs:
+                init.append(_ast.copy_location(_ast.parse('%s = []' % gen).body[0], fn.body[0]))
             doc = [fn.body[0]] if (isinstance(fn.body[0], _ast.Expr) and isinstance(fn.body[0].value, _ast.Constant)
                                    and isinstance(fn.body[0].value.value, str)) else []
             fn.body = doc + init + fn.body[len(doc):]
@@ -128,6 +234,26 @@ class Desugar(_ast.NodeTransformer):
     def stmts(self, body, top=False, loop_elem=None):
         out = []
         for st in body:
+            if isinstance(st, _ast.If) and _ast.unparse(st.test) in self.cfg.get('unsupported_if', []):
+                # a branch outside the model: entering it raises (the generated function returns None)
+                self.seen_unsupported.add(_ast.unparse(st.test))
+                st.test = self.visit(st.test)
+                st.body = [_ast.copy_location(_ast.parse('raise NotImplementedError()').body[0], st)]
+                if st.orelse:
+                    self.rej(st, 'else branch of an if declared outside the model')
+                out.append(st)
+                continue
+            if self.cfg.get('dict_writes') and isinstance(st, _ast.Assign) and len(st.targets) == 1 \
+                    and isinstance(st.targets[0], _ast.Subscript) and self.is_dict(st.targets[0].value):
+                # self.D[(d, i)] = e: the written entry becomes part of the result (newest first = what a later lookup finds)
+                k = self.key(st.targets[0].slice)
+                app = _ast.parse('%s_writes.append([0, 0, 0])' % self.cfg['dict_attr']).body[0]
+                app.value.args[0].elts = [k[0], k[1], self.visit(st.value)]
+                out.append(_ast.copy_location(app, st))
+                continue
+            if self.cfg.get('counts') and isinstance(st, (_ast.Assign, _ast.AugAssign)):
+                out += self.hoist_counts(st)
+                continue
             if isinstance(st, _ast.Assign) and len(st.targets) == 1 and isinstance(st.targets[0], _ast.Attribute):
                 tg = st.targets[0]
                 if isinstance(tg.value, _ast.Name) and tg.value.id in self.objects:
@@ -197,10 +323,10 @@ class Desugar(_ast.NodeTransformer):
                     self.rej(st, 'object view %s is rebound' % st.targets[0].id)
                 out.append(st)
                 continue
-            if isinstance(st, _ast.Return) and self.collect:
+            if isinstance(st, _ast.Return) and self.extra_outs:
                 if st.value is None:
                     self.rej(st, 'return without a value in a function that writes object attributes')
-                outs = ', '.join('%s_%s_out' % (c, self.collect) for c in sorted(self.containers))
+                outs = ', '.join(self.extra_outs)
                 tup = _ast.parse('(0, %s)' % outs, mode='eval').body
                 tup.elts[0] = self.visit(st.value)
                 st.value = tup
@@ -209,9 +335,92 @@ class Desugar(_ast.NodeTransformer):
             out.append(self.visit(st))
         return out
 
+    def hoist_counts(self, st):
+        """sum([1 for v in range(E) if C]) inside an (augmented) assignment of otherwise pure arithmetic: a counting loop in front
+        of the statement (comprehension conditions are outside the shared subset); the comprehension variable gets a fresh name"""
+        pre = []
+
+        def is_count(e):
+            return (isinstance(e, _ast.Call) and isinstance(e.func, _ast.Name) and e.func.id == 'sum' and len(e.args) == 1
+                    and not e.keywords and isinstance(e.args[0], _ast.ListComp))
+
+        def pure(e):
+            if is_count(e):
+                return True
+            if isinstance(e, (_ast.Name, _ast.Constant)):
+                return True
+            if isinstance(e, _ast.BinOp):
+                return pure(e.left) and pure(e.right)
+            if isinstance(e, _ast.Call) and isinstance(e.func, _ast.Name) and e.func.id in ('min', 'max') and not e.keywords:
+                return all(pure(a) for a in e.args)
+            return False
+
+        def rewrite(e):
+            if is_count(e):
+                lc = e.args[0]
+                g = lc.generators
+                ok = (len(g) == 1 and isinstance(lc.elt, _ast.Constant) and lc.elt.value == 1 and len(g[0].ifs) == 1 and not g[0].is_async
+                      and isinstance(g[0].target, _ast.Name) and isinstance(g[0].iter, _ast.Call) and isinstance(g[0].iter.func, _ast.Name)
+                      and g[0].iter.func.id == 'range' and len(g[0].iter.args) == 1)
+                if not ok:
+                    self.rej(e, 'sum of a comprehension that is not sum([1 for v in range(E) if C])')
+                self.ncount += 1
+                cnt, var = 'count_%d' % self.ncount, 'count_var_%d' % self.ncount
+                old = g[0].target.id
+
+                class Ren(_ast.NodeTransformer):
+                    def visit_Name(self_, n):
+                        return _ast.copy_location(_ast.Name(id=var, ctx=n.ctx), n) if n.id == old else n
+                cond = Ren().visit(g[0].ifs[0])
+                loop = _ast.parse('%s = 0\nfor %s in range(0):\n    if 0:\n        %s += 1' % (cnt, var, cnt)).body
+                loop[1].iter.args[0] = self.visit(g[0].iter.args[0])
+                loop[1].body[0].test = self.visit(cond)
+                for n_ in loop:
+                    pre.append(_ast.copy_location(n_, st))
+                return _ast.copy_location(_ast.Name(id=cnt, ctx=_ast.Load()), e)
+            if isinstance(e, _ast.BinOp):
+                e.left, e.right = rewrite(e.left), rewrite(e.right)
+            elif isinstance(e, _ast.Call) and not is_count(e):
+                e.args = [rewrite(a) for a in e.args]
+            return e
+
+        has = any(is_count(n) for n in _ast.walk(st.value))
+        if not has:
+            # an ordinary assignment: handled by the general rules
+            return self.stmts_plain(st)
+        if not pure(st.value) or not isinstance(st.targets[0] if isinstance(st, _ast.Assign) else st.target, _ast.Name):
+            self.rej(st, 'a counting comprehension inside a statement that is not pure arithmetic on names')
+        st.value = rewrite(st.value)
+        return pre + [st]
+
+    def stmts_plain(self, st):
+        saved = self.cfg.get('counts')
+        self.cfg['counts'] = False
+        try:
+            return self.stmts([st])
+        finally:
+            self.cfg['counts'] = saved
+
     # expressions ------------------------------------------------------------------------------------------------
     def visit_Call(self, c):
         f = c.func
+        if isinstance(f, _ast.Attribute) and isinstance(f.value, _ast.Name) and f.value.id == 'self' and f.attr in VIEWS:
+            # a view handed on to another translated method that views the same parameter positions the same way
+            sub = VIEWS[f.attr]
+            callee = [a.arg for a in self.sigs.get(f.attr, [])]
+            for k_, a in enumerate(c.args):
+                if isinstance(a, _ast.Name) and a.id in self.containers:
+                    if k_ >= len(callee) or callee[k_] not in sub['containers']:
+                        self.rej(c, 'container view %s passed to a parameter of %s that is not a container view' % (a.id, f.attr))
+                    c.args[k_] = _ast.copy_location(_ast.Name(id=a.id + '_objects', ctx=_ast.Load()), a)
+                elif isinstance(a, _ast.Name) and a.id in self.objects:
+                    if k_ >= len(callee) or callee[k_] not in sub['objects']:
+                        self.rej(c, 'object view %s passed to a parameter of %s that is not an object view' % (a.id, f.attr))
+                else:
+                    c.args[k_] = self.visit(a)
+            if c.keywords:
+                self.rej(c, 'keyword arguments in a call that hands on a view')
+            return c
         if isinstance(f, _ast.Attribute) and isinstance(f.value, _ast.Name) and f.value.id in self.containers:
             if f.attr != 'get_objects' or c.args or c.keywords:
                 self.rej(c, 'call %s.%s(..) on a container view (only get_objects())' % (f.value.id, f.attr))
@@ -281,8 +490,9 @@ def check_get_objects(repo):
 class _AstProxy(object):
     """the module `ast` as seen by the shared translator: parse() of the target file applies the object-view rewriting"""
 
-    def __init__(self):
+    def __init__(self, target=None):
         self.repo = None
+        self.target = target
 
     def __getattr__(self, name):
         return getattr(_ast, name)
@@ -291,10 +501,17 @@ class _AstProxy(object):
         mod = _ast.parse(src, *a, **k)
         if isinstance(mod, _ast.Module):
             for st in mod.body:
-                if isinstance(st, _ast.ClassDef) and st.name == CLASS:
+                if isinstance(st, _ast.ClassDef) and st.name == CLASS2 and self.target == TARGET2:
+                    for i, m in enumerate(st.body):
+                        if isinstance(m, _ast.FunctionDef) and m.name == 'get_next_object_for_refinement':
+                            st.body[i] = desugar_get_next(m)
+                if isinstance(st, _ast.ClassDef) and st.name == CLASS and self.target == TARGET:
+                    sigs = {m.name: list(m.args.args[1:]) for m in st.body if isinstance(m, _ast.FunctionDef)}
                     for i, m in enumerate(st.body):
                         if isinstance(m, _ast.FunctionDef) and m.name in VIEWS:
-                            st.body[i] = Desugar(m, VIEWS[m.name]).run()
+                            ds = Desugar(m, dict(VIEWS[m.name]))
+                            ds.sigs = sigs
+                            st.body[i] = ds.run()
         return mod
 
 
@@ -312,7 +529,7 @@ class C06Translator(_BaseTr):
         if self.tname == TARGET:
             decl = self.cfg.get('param_types', {})
             for ar in f.node.args.args:
-                if ar.annotation is None and (f.node.name, ar.arg) in decl:
+                if (f.node.name, ar.arg) in decl:
                     ar.annotation = _ast.copy_location(_ast.parse(decl[(f.node.name, ar.arg)], mode='eval').body, ar)
         return _BaseTr.signature(self, f)
 
@@ -345,6 +562,10 @@ def render_c06(tr, fns):
             raise P.Reject(_ast.parse('0'), 'header of the shared translator changed (front end py2gallina_c06.py must follow)')
         text = text.replace(old, old[:-1] + ' Base.PyC06.', 1)
         text = text.replace('harness/translate/py2gallina.py --target dimwise', 'harness/translate/py2gallina_c06.py', 1)
+    if tr.tname == TARGET2:
+        text = text.replace('harness/translate/py2gallina.py --target refcont', 'harness/translate/py2gallina_c06.py', 1)
+        text = text.replace('every ./setup.sh C06 and at the start of every ./check C06 run',
+                            'the start of every ./check C06 / C03 run (harness/vp/props/_c06_gen.py)', 1)
         text = text.replace('every ./setup.sh C06 and at the start of every ./check C06 run',
                             'the start of every ./check C06 / C03 run (harness/vp/props/_c06_gen.py)', 1)
     return text
@@ -364,11 +585,18 @@ def main(argv):
         else:
             sys.stderr.write(__doc__)
             return 2
-    P.ast = _AstProxy()
-    try:
-        return P.main(args)
-    finally:
-        P.ast = _ast
+    rc = 0
+    for tg in (TARGET, TARGET2):
+        a2 = ['--target', tg] + [x for x in args[2:]]
+        if tg == TARGET2 and '--out' in a2:          # an explicit --out names the file of the first target only
+            k = a2.index('--out')
+            a2[k + 1] = os.path.join(os.path.dirname(a2[k + 1]), 'RefContainerGen.v')
+        P.ast = _AstProxy(tg)
+        try:
+            rc = max(rc, P.main(a2))
+        finally:
+            P.ast = _ast
+    return rc
 
 
 if __name__ == '__main__':
